@@ -302,10 +302,16 @@ def build(tier, seed):
         "length and symbolic contents (z3 sequences), totals are unbounded ints / reals; dictionaries have concrete key sets (enumerated "
         "shapes). Postcondition = the tracker state equals the fold of an independently written specification of `update` over the "
         "list of updates the property prescribes; the wrapped device method is an uninterpreted function (logged: exactly one call, "
-        "same arguments, result returned unchanged); inactive tracker => state unchanged and no callback.")
+        "same arguments, result returned unchanged); inactive tracker => state unchanged and no callback. Batches: concrete sizes "
+        "0..3 with symbolic contents (size-bounded cases) AND batches of symbolic length: the loops of execute / execute_and_compute_* are "
+        "cut by invariants over recursively defined spec functions (prefix maps / prefix sums, used only through instances of their "
+        "defining equations at the loop index); dictionary shapes that change inside a loop are covered by a havoc that forks over "
+        "the shapes the invariant allows. compute_derivatives / compute_jvp / compute_vjp have no loop and are proved for any batch length.")
     plan.trusted_base = ["vf/pyvc encoder (Python subset semantics: dicts with concrete keys, lists, closures' free variables bound to models)",
                          "z3 sequence + linear arithmetic theories",
-                         "the specification of update()/numeric in this file (SpecState.update / native_apply): append, add-if-Number, latest := kwargs"]
+                         "the specification of update()/numeric in this file (SpecState.update / native_apply): append, add-if-Number, latest := kwargs",
+                         "the recursive definitions of the spec functions ones / E / S / R / P / sumE / sumS / any (spec_defs): they ARE the meaning of "
+                         "'one entry per circuit in batch order' for symbolic-length batches; the loop-cut rule (init, preservation, use) of the engine"]
     plan.assumptions = [
         "A-float-as-real for float-valued tracker entries (totals of floats are exact reals in the proof; the replay uses binary64)",
         "A-homogeneous-history: in the symbolic model the EARLIER entries of history[k] have the type category (int/bool/float/None/object) "
@@ -792,16 +798,19 @@ def build(tier, seed):
                                   ensures=lambda o, r, n, names=names, ups=ups: wrapper_post(o, r, n, names, ups(o), 1),
                                   size_bounded=True, native_gen=fix_model, native_call=native_wrapper(outer, names)))
         contracts.append(FnContract(w_s, f"{outer}.<locals>.{inner}", cases))
-    plan.size_bounds.append(f"_track_execute_and_compute_{{derivatives,jvp,vjp}}: single circuit, tuples of 0..{MAXB} circuits, list of 2; "
-                            "_track_compute_{derivatives,jvp,vjp}: batches of ANY length (symbolic-length tuple) + single circuit")
+    plan.size_bounds.append(f"_track_execute_and_compute_{{derivatives,jvp,vjp}}: single circuit, tuples of 0..{MAXB} circuits, list of 2 "
+                            "(size-bounded cases); NOT size-bounded: batches of any length for _track_compute_{derivatives,jvp,vjp} (all tracker "
+                            "shapes), for _track_execute (tracker key sets fresh / steady / steady-without-shots, opaque results) and for "
+                            "_track_execute_and_compute_* (fresh / steady); float-valued results and list-typed batches only in the size-bounded cases")
 
     # =====================================================================================================================
     # batches of ANY length through the loops of execute / execute_and_compute_*: loop invariants over spec functions.
     # Spec functions (uninterpreted; only instances of their defining equations are assumed, at the loop index):
     #   ones(i) = [1]*i;  E(b,i) = [nexec(c) for c in b[:i]];  S(b,i) = [nshots(c) for c in b[:i] if c.shots];  R(b,i) = [res(c) for c in b[:i]]
-    #   P(r,i) = r[:i];  sumE(b,i) = sum(E(b,i));  sumS(b,i) = sum(S(b,i))
-    # Dictionary SHAPES that change inside a loop (`latest` is replaced by every update) are handled by a havoc that FORKS over the finitely
-    # many shapes the invariant allows (initial shape with i == 0 / shape after an iteration), so the cut covers every reachable state.
+    #   P(r,i) = r[:i];  sumE(b,i) = sum(E(b,i));  sumS(b,i) = sum(S(b,i));  any(b,i) = any(c.shots for c in b[:i])
+    # Dictionary SHAPES change inside the loops (`latest` is replaced by every update, keys are created by the first iteration): the havoc
+    # of the loop cut FORKS over the finitely many shapes the invariant allows (entry shape with i == 0 / shapes after an iteration), so the
+    # cut covers every reachable state; a key that is still absent is specified as "nothing appended yet".
     QSs = w_s.sort_of(QS)
     SQ, ISs, LSs = z3.SeqSort(QSs), z3.SeqSort(z3.IntSort()), z3.SeqSort(LabelSort)
     fidx = {f_: k_ for k_, f_ in enumerate(QS_FIELDS)}
@@ -816,6 +825,7 @@ def build(tier, seed):
     EXS, SHS, RES = z3.Function("E_prefix", SQ, I_, ISs), z3.Function("S_prefix", SQ, I_, ISs), z3.Function("R_prefix", SQ, I_, LSs)
     PRE = z3.Function("P_prefix", LSs, I_, LSs)
     SUME, SUMS = z3.Function("sumE_prefix", SQ, I_, I_), z3.Function("sumS_prefix", SQ, I_, I_)
+    ANY = z3.Function("any_shots_prefix", SQ, I_, z3.BoolSort())
 
     def spec_defs(b, r, k):
         """instances of the defining equations at index k"""
@@ -829,7 +839,8 @@ def build(tier, seed):
                z3.Implies(inb, SHS(b, k + 1) == z3.If(on, z3.Concat(SHS(b, k), z3.Unit(qf(c, "nshots"))), SHS(b, k))),
                RES(b, 0) == z3.Empty(LSs), z3.Implies(inb, RES(b, k + 1) == z3.Concat(RES(b, k), z3.Unit(qf(c, "res")))),
                SUME(b, 0) == 0, z3.Implies(inb, SUME(b, k + 1) == SUME(b, k) + qf(c, "nexec")),
-               SUMS(b, 0) == 0, z3.Implies(inb, SUMS(b, k + 1) == SUMS(b, k) + z3.If(on, qf(c, "nshots"), 0))]
+               SUMS(b, 0) == 0, z3.Implies(inb, SUMS(b, k + 1) == SUMS(b, k) + z3.If(on, qf(c, "nshots"), 0)),
+               z3.Not(ANY(b, 0)), z3.Implies(inb, ANY(b, k + 1) == z3.Or(ANY(b, k), on))]
         if r is not None:
             out += [PRE(r, 0) == z3.Empty(LSs), z3.Implies(z3.And(k >= 0, k < z3.Length(r)), PRE(r, k + 1) == z3.Concat(PRE(r, k), z3.Unit(r[k])))]
         return out
@@ -851,39 +862,76 @@ def build(tier, seed):
         return SeqV(z, PAIR, False)
     w_s.extra_builtins["zip"] = b_zip
 
-    STEADY = tr_shape("steady")
-
-    def havoc_tracker(latest_shapes):
-        """a tracker with the steady key sets whose `latest` has one of the given shapes (the path forks over them)"""
+    def havoc_tracker(shapes):
+        """a tracker whose dictionaries have one of the given shapes dict(hist, totals, latest) (the path forks over them)"""
         ci = w_s.classes["Tracker"]
 
         def mk(ctx, name):
-            pick = len(latest_shapes) - 1
-            for j in range(len(latest_shapes) - 1):
-                if ctx.branch(z3.Bool(ctx.fresh_name(f"latest_shape_{j}"))):
+            pick = len(shapes) - 1
+            for j in range(len(shapes) - 1):
+                if ctx.branch(z3.Bool(ctx.fresh_name(f"dict_shape_{j}"))):
                     pick = j
                     break
-            lat = latest_shapes[pick]
+            sh = shapes[pick]
             return Rec(ci, {
                 "persistent": fresh(ctx, Bool, name + ".persistent"), "active": fresh(ctx, Bool, name + ".active"), "callback": CB,
-                "totals": SnapDict({k: fresh(ctx, Int, f"{name}.totals[{k}]") for k in STEADY["totals"]}),
-                "history": SnapDict({k: fresh(ctx, SeqT(ELEM[kd]), f"{name}.history[{k}]") for k, kd in STEADY["hist"].items()}),
-                "latest": SnapDict({k: fresh(ctx, VALT[kd], f"{name}.latest[{k}]") for k, kd in lat.items()}),
+                "totals": SnapDict({k: fresh(ctx, Int, f"{name}.totals[{k}]") for k in sh["totals"]}),
+                "history": SnapDict({k: fresh(ctx, SeqT(ELEM[kd]), f"{name}.history[{k}]") for k, kd in sh["hist"].items()}),
+                "latest": SnapDict({k: fresh(ctx, VALT[kd], f"{name}.latest[{k}]") for k, kd in sh["latest"].items()}),
                 "__ctx": ctx, "__cbcount": fresh(ctx, Int, name + ".cbcount")})
         return T("build", mk, gen=lambda rng: None)
 
+    def as_seq_term(x, sort):
+        """z3 sequence of a history list (symbolic-length value or a concrete list created on this path)"""
+        if isinstance(x, SeqV):
+            return x.term if x.term.sort() == sort else None
+        if isinstance(x, PyList):
+            try:
+                items = [to_int_term(v) if sort == ISs else v for v in x.items]
+                if not all(isinstance(v, z3.ExprRef) and z3.SeqSort(v.sort()) == sort for v in items):
+                    return None
+                return seq_of(items, sort.basis())
+            except Unsupp:
+                return None
+        return None
+
     def frame(tr, T0, exp_h, exp_t):
-        """histories / totals of tr are those of T0 except for the prescribed keys; flags untouched"""
+        """tr is T0 with, for every key of exp_h, the sequence exp_h[key][0] appended to its history (exp_t: the amount added to its
+        total); the second component is the condition under which at least one entry was appended -- a key T0 does not have exists in
+        tr exactly under that condition (and nothing was appended otherwise); every other key and the flags are untouched"""
         H, H0, TT, TT0 = tr.f["history"], T0.f["history"], tr.f["totals"], T0.f["totals"]
-        if set(H) != set(H0) or set(TT) != set(TT0):
-            return False
         conj = [veq(tr.f["active"], T0.f["active"]), veq(tr.f["persistent"], T0.f["persistent"]), tr.f["callback"] is T0.f["callback"]]
-        for k in H:
-            if not isinstance(H[k], SeqV) or not isinstance(H0[k], SeqV):
+        for k in list(dict.fromkeys(list(H0) + list(H) + list(exp_h))):
+            add = exp_h.get(k)
+            if k in H0:
+                if k not in H:
+                    return False
+                t0 = as_seq_term(H0[k], H0[k].term.sort()) if isinstance(H0[k], SeqV) else None
+                t1 = as_seq_term(H[k], t0.sort()) if t0 is not None else None
+                if t0 is None or t1 is None:
+                    return False
+                conj.append(t1 == (z3.Concat(t0, add[0]) if add is not None else t0))
+            elif add is None:
+                return False                                   # a key appeared that nothing was to be recorded under
+            elif k in H:
+                t1 = as_seq_term(H[k], add[0].sort())
+                if t1 is None:
+                    return False
+                conj += [add[1], t1 == add[0]]
+            else:
+                conj += [znot(add[1]), add[0] == z3.Empty(add[0].sort())]
+        for k in list(dict.fromkeys(list(TT0) + list(TT) + list(exp_t))):
+            add = exp_t.get(k)
+            if k in TT0:
+                if k not in TT:
+                    return False
+                conj.append(to_int_term(TT[k]) == (to_int_term(TT0[k]) + add[0] if add is not None else to_int_term(TT0[k])))
+            elif add is None:
                 return False
-            conj.append(H[k].term == (z3.Concat(H0[k].term, exp_h[k]) if k in exp_h else H0[k].term))
-        for k in TT:
-            conj.append(to_int_term(TT[k]) == (to_int_term(TT0[k]) + exp_t[k] if k in exp_t else to_int_term(TT0[k])))
+            elif k in TT:
+                conj += [add[1], to_int_term(TT[k]) == add[0]]
+            else:
+                conj += [znot(add[1]), add[0] == 0]
         return And(*conj)
 
     def latest_is(tr, shapes):
@@ -899,15 +947,16 @@ def build(tier, seed):
     def exec_state(tr, T0, b, r, i):
         i = to_int_term(i)
         last = b[i - 1]
+        some = i >= 1
         per_circuit = {"simulations": 1, "executions": qf(last, "nexec"), "results": r[i - 1], "resources": qf(last, "res")}
         return And(frame(tr, T0,
-                         {"batches": z3.Unit(z3.IntVal(1)), "simulations": ONES(i), "executions": EXS(b, i), "results": PRE(r, i),
-                          "resources": RES(b, i), "shots": SHS(b, i)},
-                         {"batches": 1, "simulations": i, "executions": SUME(b, i), "shots": SUMS(b, i)}),
+                         {"batches": (z3.Unit(z3.IntVal(1)), True), "simulations": (ONES(i), some), "executions": (EXS(b, i), some),
+                          "results": (PRE(r, i), some), "resources": (RES(b, i), some), "shots": (SHS(b, i), ANY(b, i))},
+                         {"batches": (z3.IntVal(1), True), "simulations": (i, some), "executions": (SUME(b, i), some), "shots": (SUMS(b, i), ANY(b, i))}),
                    veq(tr.f["__cbcount"], 1 + i),
                    latest_is(tr, [(i == 0, {"batches": 1}),
-                                  (z3.And(i >= 1, z3.Not(qf(last, "shots"))), per_circuit),
-                                  (z3.And(i >= 1, qf(last, "shots")), dict(per_circuit, shots=qf(last, "nshots")))]))
+                                  (z3.And(some, z3.Not(qf(last, "shots"))), per_circuit),
+                                  (z3.And(some, qf(last, "shots")), dict(per_circuit, shots=qf(last, "nshots")))]))
 
     def exec_inv(v):
         dev = v.self
@@ -927,7 +976,17 @@ def build(tier, seed):
         return ax
 
     PER = {"simulations": "int", "executions": "int", "results": "obj", "resources": "obj"}
-    EXEC_HAVOC = havoc_tracker([{"batches": "int"}, PER, dict(PER, shots="int")])
+
+    def exec_havoc(shape):
+        h0, t0 = shape["hist"], shape["totals"]
+        hA, tA = dict(h0, batches="int"), dict(t0, batches="int")
+        hB, tB = dict(hA, **PER), dict(tA, simulations="int", executions="int")
+        hS, tS = dict(hB, shots="int"), dict(tB, shots="int")
+        shapes = [dict(hist=hA, totals=tA, latest={"batches": "int"}), dict(hist=hS, totals=tS, latest=dict(PER, shots="int")),
+                  dict(hist=hS, totals=tS, latest=PER)]
+        if "shots" not in h0:
+            shapes.append(dict(hist=hB, totals=tB, latest=PER))
+        return havoc_tracker(shapes)
 
     def exec_seq_ens(o, r, n):
         if not is_sym(o.self):
@@ -940,11 +999,14 @@ def build(tier, seed):
                    Implies(Not(act), And(state_after(otr, ntr, []), flags_same(otr, ntr), veq(cbcount(ntr), 0))))
 
     seq_ret = (lambda ctx: fresh(ctx, SeqT(Label, tuple=True), "ret")), (lambda rng: tuple(f"L{rng.randint(20, 40)}" for _ in range(2)))
+    SEQ_SHAPES = ("fresh", "steady", "noshots")
     contracts.append(FnContract(w_s, "_track_execute.<locals>.execute", [
-        Case("seq-tracker-steady-results-obj", {"self": device_t(STEADY, *seq_ret), "circuits": circ_t("seq"), "execution_config": Label},
+        Case(f"seq-tracker-{trn}-results-obj", {"self": device_t(tr_shape(trn), *seq_ret), "circuits": circ_t("seq"), "execution_config": Label},
              requires=lambda a: (z3.Length(ret_of(a.self).term) == z3.Length(a.circuits.term)) if is_sym(a.self) else len(ret_of(a.self)) == len(a.circuits),
-             ensures=exec_seq_ens, loops={0: LoopSpec(exec_inv, types={"self.tracker": EXEC_HAVOC}, axioms=loop_axioms(True))},
-             native_gen=lambda rng, m: fix_model(rng, m, ("circuits",)), native_call=native_wrapper("_track_execute", NM2))]))
+             ensures=exec_seq_ens,
+             loops={0: LoopSpec(exec_inv, types={"self.tracker": exec_havoc(tr_shape(trn))}, axioms=loop_axioms(True))},
+             native_gen=lambda rng, m: fix_model(rng, m, ("circuits",)), native_call=native_wrapper("_track_execute", NM2), max_paths=800)
+        for trn in SEQ_SHAPES]))
 
     # ---- execute_and_compute_{derivatives, jvp, vjp} ------------------------------------------------------------------------------
     def res_inv(v):
@@ -953,10 +1015,12 @@ def build(tier, seed):
         b = v.batch.term
         i = to_int_term(v._i0)
         tr = dev.f["tracker"]
-        return And(len(dev.f["__log"]) == 0, frame(tr, T0, {"resources": RES(b, i)}, {}), veq(tr.f["__cbcount"], 0),
+        return And(len(dev.f["__log"]) == 0, frame(tr, T0, {"resources": (RES(b, i), i >= 1)}, {}), veq(tr.f["__cbcount"], 0),
                    latest_is(tr, [(i == 0, dict(T0.f["latest"])), (i >= 1, {"resources": qf(b[i - 1], "res")})]))
 
-    RES_HAVOC = havoc_tracker([STEADY["latest"], {"resources": "obj"}])
+    def res_havoc(shape):
+        return havoc_tracker([shape, dict(hist=dict(shape["hist"], resources="obj"), totals=shape["totals"], latest={"resources": "obj"})])
+
     for outer, inner, names, bk, ck in (
             ("_track_execute_and_compute_derivatives", "execute_and_compute_derivatives", NM2, "execute_and_derivative_batches", "derivatives"),
             ("_track_execute_and_compute_jvp", "execute_and_compute_jvp", ("circuits", "tangents", "execution_config"), "execute_and_jvp_batches", "jvps"),
@@ -969,17 +1033,20 @@ def build(tier, seed):
             b = o.circuits.term
             nn = z3.Length(b)
             return And(same(r, ret_of(n.self)), called_once(o, n, names),
-                       Implies(act, And(frame(ntr, otr, {"resources": RES(b, nn), bk: z3.Unit(z3.IntVal(1)), "executions": z3.Unit(nn), ck: z3.Unit(nn)},
-                                              {bk: 1, "executions": nn, ck: nn}),
+                       Implies(act, And(frame(ntr, otr, {"resources": (RES(b, nn), nn >= 1), bk: (z3.Unit(z3.IntVal(1)), True),
+                                                         "executions": (z3.Unit(nn), True), ck: (z3.Unit(nn), True)},
+                                              {bk: (z3.IntVal(1), True), "executions": (nn, True), ck: (nn, True)}),
                                         veq(cbcount(ntr), 1), latest_is(ntr, [(True, {bk: 1, "executions": nn, ck: nn})]))),
                        Implies(Not(act), And(state_after(otr, ntr, []), flags_same(otr, ntr), veq(cbcount(ntr), 0))))
-        params = {"self": device_t(STEADY, one_m, one_g), "circuits": circ_t("seq")}
-        for p in names[1:]:
-            params[p] = Label
-        contracts.append(FnContract(w_s, f"{outer}.<locals>.{inner}", [
-            Case("seq-tracker-steady", params, ensures=ens,
-                 loops={0: LoopSpec(res_inv, types={"self.tracker": RES_HAVOC}, axioms=loop_axioms(False))},
-                 native_gen=lambda rng, m: fix_model(rng, m, ("circuits",)), native_call=native_wrapper(outer, names))]))
+        cases = []
+        for trn in ("fresh", "steady"):
+            params = {"self": device_t(tr_shape(trn), one_m, one_g), "circuits": circ_t("seq")}
+            for p in names[1:]:
+                params[p] = Label
+            cases.append(Case(f"seq-tracker-{trn}", params, ensures=ens,
+                              loops={0: LoopSpec(res_inv, types={"self.tracker": res_havoc(tr_shape(trn))}, axioms=loop_axioms(False))},
+                              native_gen=lambda rng, m: fix_model(rng, m, ("circuits",)), native_call=native_wrapper(outer, names)))
+        contracts.append(FnContract(w_s, f"{outer}.<locals>.{inner}", cases))
 
     # =====================================================================================================================
     # simulator_tracking: the class decorator wires every overridden entry point to ITS wrapper
